@@ -31,7 +31,7 @@ def key_fn(ev, clause):
     if ev['ev'] == 'run':
         if clause == 'Inv_C12_Total_NoRaise':
             return '%s|%s|generate_commands(kwargs=%s)' % (clause, ev['raised'], 'None' if ev['cfg']['kwargs'] == 'none' else '{}')
-        return '%s|obtain_counts|pool=%s,usekey=%s' % (clause, ev['pool'], ev['cfg']['usekey'])
+        return '%s|obtain_counts|pool=%s,usekey=%s,bams=%s' % (clause, ev['pool'], ev['cfg']['usekey'], ev.get('bam', {}).get('nfiles', 1))
     improper = any(not r['proper'] for r in ev.get('bam', {}).get('recs', []))
     return '%s|regions=%s|%s' % (clause, ev['regions'], 'improper_pairs_present' if improper else 'proper_pairs_only')
 
@@ -68,8 +68,12 @@ def run(tier):
     acts = ['Run', 'Merg', 'Finish']
     q = 'q' if tier == 'quick' else 't'
     c.mc_pass('BinCounts', 'MC_BinCounts_design_%s.cfg' % q, actions_required=acts, workers=8, timeout=1500)
+    # several BAMs of different cells: a bin id is reported by several jobs and must be merged per cell
+    c.mc_pass('BinCounts', 'MC_BinCounts_designfiles_%s.cfg' % q, actions_required=acts, workers=8, timeout=1500)
     if tier != 'quick':
         c.mc_pass('BinCounts', 'MC_BinCounts_design2_t.cfg', actions_required=acts, workers=8, timeout=1500)
+    c.mc_negative('BinCounts', 'MC_BinCounts_impl_plain_update_q.cfg', expect_inv=['Inv_C12_Matrix', 'Inv_C12_Invariant', 'Inv_C12_Total'],
+                  workers=4)
     c.mc_negative('BinCounts', 'MC_BinCounts_impl_kwargs_none_q.cfg', expect_inv=['Inv_C12_Total_NoRaise'], workers=4)
     c.mc_negative('BinCounts', 'MC_BinCounts_impl_own_fetch_q.cfg', expect_inv=['Inv_C12_Matrix', 'Inv_C12_Invariant', 'Inv_C12_Total'],
                   workers=4)
@@ -151,6 +155,7 @@ def run(tier):
                          'BAM; validated when TLC recomputed the same matrix from the abstract BAM description (and found it '
                          'equal to the first run of its group)', exhaustive=False,
                     extra_cov={'distinct_nontrivial': len(sig), 'bams': sum(1 for e in events if e['ev'] == 'bam'),
+                               'multi_bam_runs': sum(1 for e in judged if e['bam'].get('nfiles', 1) > 1),
                                'real_pool_runs': sum(1 for e in judged if e.get('pool') == 'real'),
                                'outside_precondition_runs': sum(1 for e in runs if e['tid'] in noted and e['ev'] == 'run')})
 
